@@ -5,6 +5,7 @@ META = {
     "note": "trusted: TLC, the text renderer, the machine facts for %d/~/%l/%L/%u (getpass, expanduser, gethostname, getfqdn); %C is only required to be 40 hex digits; configs whose Match host/user blocks apply differently in paramiko's two passes are generated rarely and not judged (Appendix F); canonicalization, Match exec/localuser/canonical, bracket patterns and duplicate IdentityFile values inside one block are not generated",
 }
 import json
+import os
 import random
 import re
 import time
@@ -15,18 +16,34 @@ from harness.drivers import lookup as drv
 INVS = ["FirstObtained", "NoStrayKeys", "WalkIsLookup", "PartsAgree"]
 
 
-def mc_cfg(headers, bodies, pre, maxblocks, pin_none=False, pin_order=False, invariants=INVS):
+# "IdentityFile values accumulate ... without duplicates": the code (like its parse step) keeps a value that is
+# repeated inside the FIRST contributing block (that block's list is copied as written), while OpenSSH's
+# add_identity_file never registers a duplicate.  FALSE = the reading that demands less (the first contributing
+# block's own list as written; everything accumulated on top of it without duplicates) - the repeat is then
+# reported as conformance item C_identityfile_repeat_inside_first_contributing_block_kept.  TRUE = the whole
+# final list must be duplicate-free (key P_value:identityfile_repeat_inside_first_contributing_block_kept);
+# switch it on together with the parse-time fix in proposed/C40_identityfile_repeat_in_first_block.md.
+STRICT_FIRST_BLOCK = os.environ.get("VERIF_C40_STRICT", "0") == "1"      # default: the lenient reading
+
+
+def mc_cfg(headers, bodies, pre, maxblocks, pin_none=False, pin_order=False, pin_snapshot=False, keep_repeats=None, strict=None,
+           invariants=INVS):
+    strict = STRICT_FIRST_BLOCK if strict is None else strict
+    keep_repeats = (not strict) if keep_repeats is None else keep_repeats
     lines = ["SPECIFICATION Spec", "CONSTANTS",
              "  Headers <- %s" % headers, "  Bodies <- %s" % bodies, "  Preambles <- %s" % pre, "  HostNames <- MC_Hosts",
              "  MaxBlocks = %d" % maxblocks, "  Env <- MC_Env",
-             "  PinNone = %s" % ("TRUE" if pin_none else "FALSE"), "  PinOrder = %s" % ("TRUE" if pin_order else "FALSE")]
+             "  PinNone = %s" % ("TRUE" if pin_none else "FALSE"), "  PinOrder = %s" % ("TRUE" if pin_order else "FALSE"),
+             "  PinSnapshot = %s" % ("TRUE" if pin_snapshot else "FALSE"), "  KeepRepeats = %s" % ("TRUE" if keep_repeats else "FALSE"),
+             "  StrictFirstBlock = %s" % ("TRUE" if strict else "FALSE")]
     lines += ["INVARIANT %s" % i for i in invariants]
     lines.append("CHECK_DEADLOCK FALSE")
     return "\n".join(lines) + "\n"
 
 
 TRACE_CFG = ("SPECIFICATION TSpec\nCONSTANTS\n  Headers = {}\n  Bodies = {}\n  Preambles = {}\n  HostNames = {}\n  MaxBlocks = 0\n"
-             "  Env = {}\n  PinNone = FALSE\n  PinOrder = FALSE\nINVARIANT Report\nCHECK_DEADLOCK FALSE\n")
+             "  Env = {}\n  PinNone = FALSE\n  PinOrder = FALSE\n  PinSnapshot = FALSE\n  KeepRepeats = TRUE\n"
+             "  StrictFirstBlock = %s\nINVARIANT Report\nCHECK_DEADLOCK FALSE\n" % ("TRUE" if STRICT_FIRST_BLOCK else "FALSE"))
 
 # ---------------------------------------------------------------- random configs (structure first, text second)
 HOST_ALPHA = "abc"
@@ -80,7 +97,7 @@ def rnd_body(rnd, maxlines=4):
             continue
         v = rnd.choice(VALUES[k])
         if k == "identityfile":
-            if tuple(v) in used_ident:          # the statement does not cover duplicates inside one block
+            if tuple(v) in used_ident and rnd.random() < 0.7:      # now and then a value repeated inside one block
                 continue
             used_ident.add(tuple(v))
         body.append({"k": k, "v": v, "none": False})
@@ -117,6 +134,42 @@ def rnd_config(rnd):
     return [pre] + [rnd_block(rnd) for _ in range(rnd.choice([1, 2, 3, 4, 6, 8, 12]))]
 
 
+IDENT_POOL = [["k", "1"], ["~", "/", "k", "2"], ["i", "d", "_", "%h"], ["%d", "/", "k"], ["k", "-", "%u"], ["k", "3"]]
+
+
+def identity_stratum(rnd):
+    """1-3 blocks that all apply to the looked-up name, each with an IdentityFile list drawn WITH repeats from a
+    2-3 value alphabet (a repeat inside the first contributing block, inside a later one, and of a value an earlier
+    block already gave), optionally with a block in between that does not apply"""
+    host = rnd_host(rnd)
+    alpha = rnd.sample(IDENT_POOL, rnd.choice([2, 3]))
+    blocks = [{"kind": "host", "implicit": True, "pats": [{"neg": False, "p": ["*"]}], "crit": [], "body": []}]
+    n = rnd.choice([1, 2, 2, 3, 3])
+    for b in range(n):
+        shape = rnd.random()
+        if shape < 0.45:
+            blk = {"kind": "host", "pats": [{"neg": False, "p": rnd.choice([["*"], list(host), [host[0], "*"], ["?"] * len(host)])}], "crit": []}
+        elif shape < 0.6:
+            blk = {"kind": "host", "pats": [{"neg": False, "p": ["*"]}, {"neg": True, "p": ["z", "z"]}], "crit": []}
+        elif shape < 0.8:
+            blk = {"kind": "match", "pats": [], "crit": [{"type": "originalhost", "neg": False, "pats": [{"neg": False, "p": list(host)}]}]}
+        elif shape < 0.9:
+            blk = {"kind": "match", "pats": [], "crit": [{"type": "all", "neg": False, "pats": []}]}
+        else:
+            blk = {"kind": "match", "pats": [], "crit": [{"type": "final", "neg": False, "pats": []}]}
+        blk["implicit"] = False
+        blk["body"] = [{"k": "identityfile", "v": rnd.choice(alpha), "none": False} for _ in range(rnd.choice([1, 2, 3, 3, 4]))]
+        if rnd.random() < 0.3:
+            blk["body"].insert(rnd.randint(0, len(blk["body"])), {"k": "user", "v": ["a", "b"], "none": False})
+        blocks.append(blk)
+        if rnd.random() < 0.25:
+            blocks.append({"kind": "host", "implicit": False, "pats": [{"neg": False, "p": ["z", "z", "z"]}], "crit": [],
+                           "body": [{"k": "identityfile", "v": rnd.choice(IDENT_POOL), "none": False}]})
+    if rnd.random() < 0.3:
+        blocks[0]["body"] = [{"k": "identityfile", "v": rnd.choice(alpha), "none": False} for _ in range(rnd.choice([1, 2]))]
+    return blocks, [host, rnd_host(rnd)]
+
+
 def show(cfg):
     return drv.cfg_render(cfg)
 
@@ -126,10 +179,15 @@ def run(c):
     q = c.quick
     stage, t0 = {}, time.time()
     # ---- M: pinned parse / pinned expansion order must each yield a counterexample to FirstObtained
-    pinned = [(dict(pin_none=True), "MC_PreNone", "pinned parse: ProxyCommand none stored unconditionally"),
-              (dict(pin_order=True), "MC_PreSome", "pinned expansion: %h taken from hostname in dict order")]
-    for kw, pre, name in ([pinned[c.seed % 2]] if q else pinned):      # quick: one of the two per seed
-        c.mc("SshConfig_MC", mc_cfg("MC_HeadersCore", "MC_BodiesCore", pre, 1, **kw), expect="FirstObtained", name=name, workers=4)
+    pinned = [(dict(pin_snapshot=True, keep_repeats=True, strict=False), "MC_PreSome", 1, "seeded error: later IdentityFile values filtered against a snapshot of the list"),
+              (dict(pin_none=True), "MC_PreNone", 1, "pinned parse: ProxyCommand none stored unconditionally"),
+              (dict(pin_order=True), "MC_PreSome", 1, "pinned expansion: %h taken from hostname in dict order")]
+    if not q and not STRICT_FIRST_BLOCK:     # the code's first-block copy against the OpenSSH reading, and the repaired parse
+        pinned.append((dict(keep_repeats=True, strict=True), "MC_PreNone", 1, "strict reading: a repeat inside the first contributing block survives"))
+        c.mc_holds("SshConfig_MC", mc_cfg("MC_HeadersCore", "MC_BodiesCore", "MC_PreNone", 2, keep_repeats=False, strict=True),
+                   name="strict reading with parse-time de-duplication", workers=16)
+    for kw, pre, mb, name in ([pinned[c.seed % 3]] if q else pinned):      # quick: one of the three per seed
+        c.mc("SshConfig_MC", mc_cfg("MC_HeadersCore", "MC_BodiesCore", pre, mb, **kw), expect="FirstObtained", name=name, workers=4)
     # repaired walk against the declarative statement; one CASE per (config, host)
     if q:
         runs = [("MC_HeadersCore", "MC_BodiesCore", "MC_PreNone", 2)]
@@ -180,6 +238,16 @@ def run(c):
             c.case(key=text + "|" + "".join(h),
                    sample={"config": text, "host": "".join(h), "lookup": {e["k"]: ["".join(v) for v in e["vals"]] for e in lookups[0]["opts"]}}
                    if len(c.samples) < 3 and len(cfg) > 3 and h is hosts[0] else None)
+    # fixed stratum: IdentityFile lists with repeats over 1-3 applying blocks
+    for _ in range(150 if q else 2500):
+        cfg, hosts = identity_stratum(rnd)
+        text = drv.cfg_render(cfg, rnd if rnd.random() < 0.5 else None)
+        gh, lookups = drv.cfg_observe(text, hosts)
+        records.append({"cfg": cfg, "env": env, "gh": gh, "lookups": lookups, "text": text})
+        for h in hosts:
+            c.case(key=text + "|" + "".join(h),
+                   sample={"config": text, "host": "".join(h), "lookup": {e["k"]: ["".join(v) for v in e["vals"]] for e in lookups[0]["opts"]}}
+                   if len(c.samples) < 4 and len(cfg) > 2 and h is hosts[0] else None)
     stage["random_s"] = round(time.time() - t0, 1)
     c.traces += sum(len(r["lookups"]) for r in records)
     seen = {}
@@ -218,5 +286,6 @@ def run(c):
     c.extra["enumerated_configs"] = n_cfg
     c.rule = ("every config TLC builds from the header universe (Host with wildcard/negated patterns, Match all/final/originalhost[/host/user]) x body "
               "universe (repeated keys, ProxyCommand none, IdentityFile lists, tokens) with <= 2 explicit blocks x 3 names (quick tier: a seeded sample of 1200 of these configs), rendered and run through SSHConfig; "
-              "+ seeded random configs of 1-12 blocks x 3 names with spelling/spacing variants; distinct = distinct (config text, hostname)")
+              "+ seeded random configs of 1-12 blocks x 3 names with spelling/spacing variants + a stratum of 1-3 applying blocks whose IdentityFile "
+              "lists repeat values (inside the first contributing block, inside later ones, across blocks); distinct = distinct (config text, hostname)")
     c.assumptions = ["POSIX fnmatch semantics; patterns use only * and ?", "the local user/home/hostname/fqdn do not change during the run"]
